@@ -321,13 +321,37 @@ func (o OpenOpts) BoltOptions() *bolt.Options {
 	return bo
 }
 
-// Open opens the database file with the given options.
+// PanicError is returned by Env.Open when bolt.Open panicked: never a legitimate way to refuse a file.
+type PanicError struct{ Msg string }
+
+func (p *PanicError) Error() string { return p.Msg }
+
+// IsPanic reports whether err stems from a recovered panic of the code under test.
+func IsPanic(err error) bool {
+	var p *PanicError
+	return errors.As(err, &p)
+}
+
+func openRecover(path string, bo *bolt.Options) (db *bolt.DB, err error) {
+	defer func() {
+		if r := recover(); r != nil {
+			panicSeen.Store(true)
+			db, err = nil, &PanicError{Msg: fmt.Sprintf("PANIC inside Open: %v\n%s", r, trimStack(debug.Stack()))}
+		}
+	}()
+	return bolt.Open(path, 0600, bo)
+}
+
+// Open opens the database file with the given options. A panic inside bolt.Open is returned as *PanicError.
 func (e *Env) Open(o OpenOpts) error {
 	if e.DB != nil {
 		return fmt.Errorf("already open")
 	}
 	e.Mark("open", 0)
-	db, err := bolt.Open(e.Path, 0600, o.BoltOptions())
+	db, err := openRecover(e.Path, o.BoltOptions())
+	if IsPanic(err) {
+		e.sawPanic = true
+	}
 	e.LastOpenErr = err
 	if err != nil {
 		return err
@@ -513,7 +537,7 @@ func (e *Env) apply(op Op) *Violation {
 		hadFault := e.Failed != nil
 		if err := e.Open(*op.Opts); err != nil {
 			// an armed fault that hits one of Open's own I/O calls makes Open fail cleanly; a second Open must work
-			if hadFault || e.Failed == nil || !e.AllowCommitErr {
+			if hadFault || e.Failed == nil || !e.AllowCommitErr || IsPanic(err) {
 				return Violf("open(%+v): %v", *op.Opts, err)
 			}
 			e.Label("fault-in-open")
@@ -726,6 +750,13 @@ func (e *Env) CheckCommitted(when string) (v *Violation) {
 
 // TxCheck runs Tx.Check on a fresh read transaction and returns the reported errors.
 func (e *Env) TxCheck() (errs []string) {
+	defer func() {
+		if r := recover(); r != nil {
+			panicSeen.Store(true)
+			e.sawPanic = true
+			errs = append(errs, fmt.Sprintf("PANIC inside Tx.Check: %v", r))
+		}
+	}()
 	tx, err := e.DB.Begin(false)
 	if err != nil {
 		return []string{"Begin: " + err.Error()}
